@@ -88,6 +88,9 @@ type Config struct {
 	DNS             [][]byte
 	ConfirmEpoch    *uint32 // epoch confirmed right after construction (nil = none)
 	MetaSelf        bool    // shard 0's coordinator reports SelfId() == MetachainShardId (a metachain node)
+	// NotifyOnRegister: the epoch notifier calls EpochConfirmed(current epoch) synchronously when a
+	// handler registers, as the node's generic epoch notifier does (nil = it only records).
+	NotifyOnRegister *uint32
 	// CodecWrap lets a check interpose on the marshaller (fault injection uses the choke point instead).
 }
 
@@ -427,6 +430,9 @@ type Notifier struct{ sh *Shard }
 
 func (n *Notifier) RegisterNotifyHandler(h vmcommon.EpochSubscriberHandler) {
 	n.sh.Subs = append(n.sh.Subs, h)
+	if e := n.sh.W.Cfg.NotifyOnRegister; e != nil {
+		h.EpochConfirmed(*e, 0)
+	}
 }
 func (n *Notifier) IsInterfaceNil() bool { return n == nil }
 
